@@ -123,7 +123,7 @@ var QueryCalls int
 //@ end
 
 //@ func (*MultiOpQueryer).queryBatch
-//@ props C11
+//@ props C11 C10
 //@ returns results, err
 //@ requires q != nil && forall(k, 0, len(q.mdwares), q.mdwares[k] != nil)
 //@ ensures[len] err == nil ==> len(results) == len(inputs)
@@ -139,6 +139,8 @@ var QueryCalls int
 //@ loop 0 invariant[cover] forall(k, 0, it, !FileReq(inputs[k]) ==> exists(j, 0, len(toFetchIndexes), toFetchIndexes[j] == k)) @using cover, lens, own
 //@ loop 1 invariant[done] forall(j, 0, it, Ans(inputs[toFetchIndexes[j]], results[toFetchIndexes[j]]))
 //@ loop 1 invariant[files] forall(k, 0, len(inputs), FileReq(inputs[k]) ==> Ans(inputs[k], results[k]))
+// C10/C09: a reply that carries errors ends the batch with those errors, whatever else it carries
+//@ loop 1 invariant[errors-reported] forall(j, 0, it, len(resps[j].Errors) == 0) @props C10 C09 C11
 //@ end
 
 //@ func (*MultiOpQueryer).fetch
